@@ -378,10 +378,6 @@ type callObs struct {
 	PathOK  bool         `json:"path_ok"`
 	Path    string       `json:"path"`
 	Oracle  []oracleHost `json:"oracle,omitempty"`
-	// the caller's / the script's messages with every top-level field tag re-encoded minimally (used only to
-	// classify a difference as finding F2; computed with protowire, independently of the proxy)
-	SentNorm  []string `json:"sent_norm,omitempty"`
-	ReplyNorm []string `json:"reply_norm,omitempty"`
 }
 
 // oracleLookup asks the real table which targets a request with this host and path may be sent to (the
@@ -452,12 +448,6 @@ func (r *rig) doCall(st *CallStep, connIDs map[string]int) (*callObs, error) {
 	curScript.Store(sb)
 
 	o := &callObs{Op: "call"}
-	for _, m := range msgs {
-		o.SentNorm = append(o.SentNorm, hex.EncodeToString(normTags(m)))
-	}
-	for _, m := range sb.msgs {
-		o.ReplyNorm = append(o.ReplyNorm, hex.EncodeToString(normTags(m)))
-	}
 	// oracle: what the table answers for the empty host and for every dsthost value
 	if u, err := url.ParseRequestURI(st.Method); err == nil {
 		o.PathOK, o.Path = true, u.Path
@@ -678,8 +668,9 @@ func genCallStep(r *hx.Rand) CallStep {
 	default:
 		st.MD = append([][]string{{"dsthost", "a.example"}}, st.MD...)
 	}
-	// non-minimally encoded field tags are the input class of finding F2: kept out of the main share
-	padTags := r.Chance(1, 40)
+	// a quarter of the calls carry non-minimally encoded top-level field tags: protobuf-go re-encodes those
+	// while the message passes through grpc-proxy's emptypb.Empty - same message, other bytes
+	padTags := r.Chance(1, 4)
 	st.Msgs = genMsgs(r, 4, padTags)
 	sc := &Script{Mode: r.Pick([]string{"drain", "drain", "pingpong", "replyfirst", "early"})}
 	sc.Header = genMD(r, []string{"x-h", "x-h", "h-bin", "x-a"}, 3)
